@@ -70,7 +70,12 @@ def semantic(records):
             continue
         if r[0] == "connection" and r[1][0] == "default":
             continue
-        out.append(strip_loc(r))
+        r2 = strip_loc(r)
+        # adjacent comment blocks are one block after formatting (FormatSpec.meaning merges them)
+        if r2[0] == "comment" and out and out[-1][0] == "comment":
+            out[-1] = ["comment", out[-1][1] + r2[1]]
+        else:
+            out.append(r2)
     return out
 
 
